@@ -51,7 +51,8 @@ class Loop:
 
   def __init__(self, inv=None, decreases=None, sorts=None, expect=None,
                mutates=(), name=None, unroll=False, pointwise=False,
-               ghost=None, maybe_unbound=(), after=None, hints=None):
+               ghost=None, maybe_unbound=(), after=None, hints=None,
+               ghost_step=None):
     self.inv = inv or (lambda s: z3.BoolVal(True))
     self.decreases = decreases
     self.sorts = sorts or {}
@@ -63,6 +64,7 @@ class Loop:
     self.ghost = ghost
     self.maybe_unbound = tuple(maybe_unbound)
     self.after = after
+    self.ghost_step = ghost_step  # ghost code run at the end of every iteration
     self.hints = hints  # hints(tail_state) -> [LemmaInst]: proved-lemma instances
 
 
@@ -95,6 +97,10 @@ class State:
 
   def old(self, name):
     return self._old[name]
+
+  def head(self, name):
+    """Value at the head of the current iteration (inductive-step paths)."""
+    return self._head[name]
 
   def attr(self, name, field):
     v = self.ctx.lookup(name)
@@ -190,6 +196,28 @@ def mutated_names(stmts):
   return out
 
 
+def loop_ordinals(fdef):
+  """id(loop node) -> ordinal in source order, not descending into nested defs."""
+  cache = getattr(fdef, '_pyvc_loops', None)
+  if cache is not None:
+    return cache
+  found = []
+
+  def walk(node, top):
+    if not top and isinstance(node, (ast.FunctionDef, ast.Lambda, ast.ClassDef)):
+      return
+    if isinstance(node, (ast.For, ast.While)):
+      found.append(node)
+    for ch in ast.iter_child_nodes(node):
+      walk(ch, False)
+
+  walk(fdef, True)
+  found.sort(key=lambda n: (n.lineno, n.col_offset))
+  cache = {id(n): i for i, n in enumerate(found)}
+  fdef._pyvc_loops = cache
+  return cache
+
+
 def contains_yield(stmts):
   for s in stmts:
     for n in ast.walk(s):
@@ -226,6 +254,10 @@ class Engine:
       work.extend(ctx.pending)
     self.stats['paths'] += n
     return n
+
+  def final_locals(self, ctx):
+    """Locals of the most recently finished inlined call."""
+    return ctx.frames[ctx.tags['$last_frame']]
 
   def run_function(self, ctx, funcv, args, kwargs=None):
     """Executes a FuncV to completion on this path.
@@ -294,8 +326,6 @@ class Engine:
   def inline_call(self, ctx, funcv, args, kwargs):
     bound = self.bind_params(ctx, funcv, args, kwargs)
     fid = ctx.push_frame(funcv.frames)
-    saved_loops = ctx.tags.get('$loops')
-    ctx.tags['$loops'] = (funcv, [0])
     ctx.frames[fid].update(bound)
     # nonlocal / global declarations
     nl = []
@@ -313,8 +343,7 @@ class Engine:
     except ReturnSig as r:
       return r.value
     finally:
-      ctx.pop_frame()
-      ctx.tags['$loops'] = saved_loops
+      ctx.tags['$last_frame'] = ctx.pop_frame()
 
   def call_value(self, ctx, f, args, kwargs):
     if isinstance(f, Val):
@@ -1108,11 +1137,11 @@ class Engine:
 
   # ---------------------------------------------------------------- loops
   def loop_spec(self, ctx, s):
-    funcv, counter = ctx.tags.get('$loops') or (None, [0])
-    idx = counter[0]
-    counter[0] += 1
+    funcv = ctx.cur_frame().get('$func')
+    idx = None
     spec = None
     if funcv is not None:
+      idx = loop_ordinals(funcv.fdef).get(id(s))
       spec = funcv.loops.get(idx)
     header = ast.unparse(s.iter) if isinstance(s, ast.For) else ast.unparse(s.test)
     if spec is not None and spec.expect is not None:
@@ -1230,6 +1259,44 @@ class Engine:
       return it.custom.run_for(ctx, self, s, spec, idx, header)
     raise Unsupported('for over this iterable')
 
+  @staticmethod
+  def _inv_formula(inv):
+    if isinstance(inv, dict):
+      return zand(*inv.values())
+    return inv
+
+  @staticmethod
+  def _oblige_inv(ctx, inv, name, detail):
+    if isinstance(inv, dict):
+      # named conjuncts: each is its own obligation (all of them are assumed
+      # together at the loop head)
+      # proved in order; an earlier conjunct may be used for a later one
+      for k, f in inv.items():
+        ctx.oblige(f'{name}.{k}', f, kind='invariant', detail=f'{detail}: {k}')
+    else:
+      ctx.oblige(name, inv, kind='invariant', detail=detail)
+
+  def resolve_quiet(self, ctx, expr):
+    """Side-effect-free resolution of the object a store/mutator call targets:
+    `x`, `x.a.b`; for `x[i]` / `x[i:j]` stores the container `x` itself.
+    Returns None for names that are not bound yet (body-local objects)."""
+    if isinstance(expr, ast.Subscript):
+      return self.resolve_quiet(ctx, expr.value)
+    if isinstance(expr, ast.Name):
+      try:
+        v = ctx.lookup(expr.id)
+      except KeyError:
+        return None
+      return v.val if isinstance(v, MaybeUnbound) else v
+    if isinstance(expr, ast.Attribute):
+      base = self.resolve_quiet(ctx, expr.value)
+      if isinstance(base, Ref):
+        c = base.cell(ctx)
+        if isinstance(c, ObjCell):
+          return c.fields.get(expr.attr)
+      return None
+    return None
+
   def run_pointwise(self, ctx, s, src):
     """`for k, v in d.items(): ... out[k] = f(k, v)` over a symbolic key set.
 
@@ -1296,15 +1363,7 @@ class Engine:
     # objects mutated in the body
     mut_addrs = []
     for n, expr in mutated_names(body):
-      try:
-        v = self.eval(ctx, expr) if not isinstance(expr, ast.Name) else ctx.lookup(n)
-      except Exception:
-        try:
-          v = ctx.lookup(n)
-        except KeyError:
-          continue
-      if isinstance(v, MaybeUnbound):
-        v = v.val
+      v = self.resolve_quiet(ctx, expr)
       if isinstance(v, Ref):
         mut_addrs.append(v.addr)
     for n in spec.mutates:
@@ -1326,8 +1385,8 @@ class Engine:
       old['$' + k] = v
     entry_state._old = old
     # 1. invariant holds on entry
-    ctx.oblige(f'{lname}.inv.init', spec.inv(entry_state), kind='invariant',
-               detail=f'loop invariant holds on entry ({header})')
+    self._oblige_inv(ctx, spec.inv(entry_state), f'{lname}.inv.init',
+                     f'loop invariant holds on entry ({header})')
     # alternative A: zero iterations, precise state
     alt = ctx.choose(3)
     if alt == 0:
@@ -1356,11 +1415,11 @@ class Engine:
       ctx.heap[a] = ctx.heap[a].havoc(ctx, ctx.heap[a].label or f'obj{a}')
     ghost_names = spec.ghost
     if ghost_names is None:
-      ghost_names = list(ctx.ghost) if contains_yield(body) else []
+      ghost_names = list(ctx.ghost) if (contains_yield(body) or spec.ghost_step) else []
     for g in ghost_names:
       ctx.ghost[g] = self.fresh_like(ctx, ctx.ghost[g], '$' + g)
     head = State(ctx, it=ctx.lookup(hid) if hid else None, old=old)
-    ctx.assume(spec.inv(head))
+    ctx.assume(self._inv_formula(spec.inv(head)))
     if alt == 1:
       # inductive step
       c = cond(ctx)
@@ -1369,6 +1428,15 @@ class Engine:
       if measure0 is not None:
         ctx.oblige(f'{lname}.decreases.bounded', to_z3(measure0) >= 0,
                    kind='termination', detail='variant is non-negative when the guard holds')
+      headvals = {}
+      for n, v in ctx.cur_frame().items():
+        if not n.startswith('$') or n == hid:
+          try:
+            headvals[n] = self.term_of(ctx, v)
+          except Exception:
+            pass
+      for k, v in ctx.ghost.items():
+        headvals['$' + k] = v
       epoch = next(ctx.names)
       ctx.loop_guard.append((epoch, set(mut_addrs)))
       try:
@@ -1382,18 +1450,26 @@ class Engine:
           if spec.after:
             spec.after(State(ctx, old=old))
           return  # continue after the loop from the break state
+        if spec.ghost_step:
+          spec.ghost_step(State(ctx, old=old))
         adv(ctx)
       finally:
         if ctx.loop_guard and ctx.loop_guard[-1][0] == epoch:
           ctx.loop_guard.pop()
       tail = State(ctx, it=ctx.lookup(hid) if hid else None, old=old)
+      tail._head = headvals
       if spec.hints:
         for h in spec.hints(tail):
-          if not isinstance(h, LemmaInst):
-            raise Undecided('loop hints must be instances of proved lemmas')
-          ctx.assume(h.formula)
-      ctx.oblige(f'{lname}.inv.preserved', spec.inv(tail), kind='invariant',
-                 detail=f'loop invariant is preserved by the body ({header})')
+          if isinstance(h, LemmaInst):
+            ctx.assume(h.formula)
+          elif isinstance(h, tuple) and h[0] == 'assert':
+            # an intermediate proof step: obliged here, then available
+            ctx.oblige(f'{lname}.step.{h[1]}', h[2], kind='invariant',
+                       detail='intermediate assertion of the inductive step')
+          else:
+            raise Undecided('loop hints must be proved-lemma instances or assert steps')
+      self._oblige_inv(ctx, spec.inv(tail), f'{lname}.inv.preserved',
+                       f'loop invariant is preserved by the body ({header})')
       if measure0 is not None:
         ctx.oblige(f'{lname}.decreases', to_z3(spec.decreases(tail)) < to_z3(measure0),
                    kind='termination', detail='variant strictly decreases')
@@ -1596,6 +1672,7 @@ def _b_len(ctx, v):
 def _b_min(ctx, *args, **kw):
   if len(args) == 1:
     args = ctx.engine.concrete_items(ctx, args[0])
+  args = [a._need(ctx, 'min') if isinstance(a, OptV) else a for a in args]
   r = args[0]
   for a in args[1:]:
     if isinstance(r, Val) or isinstance(a, Val):
@@ -1607,6 +1684,7 @@ def _b_min(ctx, *args, **kw):
 def _b_max(ctx, *args, **kw):
   if len(args) == 1:
     args = ctx.engine.concrete_items(ctx, args[0])
+  args = [a._need(ctx, 'max') if isinstance(a, OptV) else a for a in args]
   r = args[0]
   for a in args[1:]:
     if isinstance(r, Val) or isinstance(a, Val):
